@@ -225,6 +225,97 @@ def check_constructors(params):
     return out
 
 
+def zoo_derived(v, cls):
+    """(label, thunk) for everything derived from one zoo value by unary public operations."""
+    from discopy import monoidal
+    out = [("itself", lambda: v), ("[::-1]", lambda: v[::-1]), ("[::-1][::-1]", lambda: v[::-1][::-1]),
+           (">> dagger", lambda: v >> v[::-1]), ("dagger >>", lambda: v[::-1] >> v), ("@ itself", lambda: v @ v),
+           ("@ dagger", lambda: v @ v[::-1]), ("dagger @", lambda: v[::-1] @ v),
+           (".dagger()", lambda: v.dagger()), (".dagger().dagger()", lambda: v.dagger().dagger()),
+           ("Id(dom) @ v @ Id(cod)", lambda: v.id(v.dom) @ v @ v.id(v.cod)),
+           ("Id(cod) @ v[::-1] @ Id(dom)", lambda: v.id(v.cod) @ v[::-1] @ v.id(v.dom)),
+           (".normal_form()", lambda: v.normal_form()), (".flatten()", lambda: v.flatten()),
+           (".foliation()", lambda: v.foliation()), (".foliation().flatten()", lambda: v.foliation().flatten()),
+           (".bubble()", lambda: v.bubble()), (".downgrade()", lambda: v.downgrade()),
+           ("(v @ v).normal_form()", lambda: (v @ v >> v[::-1] @ v[::-1]).normal_form()),
+           ("[0:1]", lambda: v[0:1]), ("[1:]", lambda: v[1:]), ("[:-1]", lambda: v[:-1]), ("[0]", lambda: v[0])]
+    if hasattr(v, "transpose"):
+        out += [(".transpose()", lambda: v.transpose()), (".transpose(left=True)", lambda: v.transpose(left=True)),
+                (".transpose().transpose(left=True)", lambda: v.transpose().transpose(left=True)),
+                ("[::-1].transpose()", lambda: v[::-1].transpose())]
+    if hasattr(v, "init_and_discard"):
+        out += [(".init_and_discard()", lambda: v.init_and_discard())]
+    if hasattr(v, "subs"):
+        import sympy
+        out += [(".subs(phi, 0.5)", lambda: v.subs(sympy.Symbol("phi"), 0.5))]
+    if hasattr(v, "permute") and len(v.cod) == 2:
+        out += [(".permute(1, 0)", lambda: v.permute(1, 0))]
+    if cls != "cat":
+        out += [("interchange over a scalar", lambda: (v @ v.id(v.dom[0:0])).interchange(0, 0))]
+    return out
+
+
+def check_zoo(params):
+    """One zoo value (every box constructor x flag variant, composite subclasses): the value and
+    everything derived from it by unary operations is well-typed (or the request is refused)."""
+    from mc import zoo
+    from mc.c01 import OBS, install_hook
+    from discopy import monoidal, cat
+    cls, expr = params["cls"], params["expr"]
+    install_hook()
+    v = zoo.value(cls, expr)
+    out, n = [], 0
+    for label, thunk in zoo_derived(v, cls):
+        n += 1
+        OBS.start()
+        try:
+            w, exc = thunk(), None
+        except Exception as e:  # noqa
+            w, exc = None, e
+        internal = OBS.stop()
+        errs = []
+        if isinstance(w, monoidal.Diagram):
+            errs = ref.scan(w)
+        elif isinstance(w, cat.Arrow):
+            errs = cat_scan(w)
+        if errs:
+            out.append((_sig("zoo-illtyped", [cls, expr, label]), "[%s] %s %s is ill-typed: %s" % (cls, expr, label, errs[:2])))
+        for e in internal[:1]:
+            out.append((_sig("zoo-internal", [cls, expr, label]), "[%s] while computing %s %s: %s" % (cls, expr, label, e)))
+    params["_n"] = n
+    return out
+
+
+MIX_REPS = {"monoidal": [0, 10], "rigid": [1, 8, 16], "pregroup": [1], "tensor": [0, 7, 14], "circuit": [6, 60, 100],
+            "zx": [0, 16, 18], "biclosed": [0, 4], "cartesian": [0, 6]}
+
+
+def check_mix(params):
+    """Two values of *different* classes combined with @ and >> (both orders): the request is
+    refused or the result is well-typed."""
+    from mc import zoo
+    from discopy import monoidal
+    a = zoo.value(params["cls1"], params["expr1"])
+    b = zoo.value(params["cls2"], params["expr2"])
+    out, n = [], 0
+    for label, thunk in (("a @ b", lambda: a @ b), ("b @ a", lambda: b @ a), ("a >> b", lambda: a >> b),
+                         ("a >> b (padded)", lambda: a @ a.id(b.dom) >> a.id(a.cod) @ b),
+                         ("a.tensor(b, a)", lambda: a.tensor(b, a)), ("a[::-1] @ b", lambda: a[::-1] @ b)):
+        n += 1
+        try:
+            w = thunk()
+        except Exception:
+            continue
+        if isinstance(w, monoidal.Diagram):
+            errs = ref.scan(w)
+            if errs:
+                out.append((_sig("mix-illtyped", [params["cls1"], params["expr1"], params["cls2"], params["expr2"], label]),
+                            "a = [%s] %s, b = [%s] %s: %s was accepted and is ill-typed: %s"
+                            % (params["cls1"], params["expr1"], params["cls2"], params["expr2"], label, errs[:2])))
+    params["_n"] = n
+    return out
+
+
 def _norm(r):
     def t(x):
         return tuple(t(y) for y in x) if isinstance(x, (list, tuple)) else x
@@ -232,7 +323,20 @@ def _norm(r):
 
 
 CASES = {"class_chain": safe("C01", check_chain), "cat_ops": safe("C01", check_cat),
-         "constructors": safe("C01", check_constructors)}
+         "constructors": safe("C01", check_constructors), "zoo": safe("C01", check_zoo),
+         "mix": safe("C01", check_mix)}
+
+
+def _zoo_worker(shard):
+    part = Part()
+    for case, params in shard:
+        res = CASES[case](params)
+        part.count("states")
+        part.count("transitions", params.pop("_n", 0))
+        part.count(case + "_cases")
+        for sig, msg in res:
+            part.violation(sig, msg, case, params)
+    return part
 
 
 def _explore(shard):
@@ -302,4 +406,20 @@ def run(ctx):
         for sig, msg in res:
             ctx.violation(sig, msg, "constructors", params)
     plan.append("cups/caps/swaps/transposes of all types of length <= 3 in tensor, circuit, zx")
+    from mc import zoo
+    items = [("zoo", dict(cls=cls, expr=e)) for cls in zoo.CLASSES for e in zoo.entries(cls)]
+    nzoo = len(items)
+    for c1 in MIX_REPS:
+        for c2 in MIX_REPS:
+            if c1 == c2:
+                continue
+            e1s = zoo.entries(c1) if not ctx.quick else [zoo.entries(c1)[i] for i in MIX_REPS[c1]]
+            e2s = [zoo.entries(c2)[i] for i in MIX_REPS[c2]]
+            for e1 in e1s:
+                for e2 in e2s:
+                    items.append(("mix", dict(cls1=c1, expr1=e1, cls2=c2, expr2=e2)))
+    for p in pmap(_zoo_worker, build.shards(items, 64)):
+        ctx.merge(p)
+    plan.append("zoo: %d box constructors / flag variants / composite subclasses x %d derived values; "
+                "%d cross-class combinations" % (nzoo, 30, len(items) - nzoo))
     ctx.bounds["class_sections"] = plan
